@@ -21,13 +21,18 @@ import (
 
 const localASN = 65000
 const localASN2 = 65010 // a second contributing ASN of the VRF (another session's local AS)
+const localASN3 = 65020
+const localASN4 = 65030
 const clusterID = 0x0a0a0a0a
+const clusterID2 = 0x0b0b0b0b
+const clusterID3 = 0x0c0c0c0c
 
 type op struct {
 	K    string          `json:"k"` // announce | withdraw | policy | register-locrib | unregister-locrib | register-observer
 	Pfx  int             `json:"pfx,omitempty"`
 	Path tbl.PathSpec    `json:"path,omitempty"`
 	Pol  *tbl.PolicySpec `json:"pol,omitempty"`
+	Val  uint32          `json:"val,omitempty"` // asn-add/asn-remove/cid-add/cid-remove: the ASN / cluster id another session of the VRF contributes or withdraws
 }
 
 type hist struct {
@@ -76,7 +81,7 @@ func genPath(rng *rand.Rand, s tbl.SessionSpec, id uint32) (tbl.PathSpec, string
 		p.ASPath = append(p.ASPath, tbl.Seg{ASNs: []uint32{65300, localASN}})
 		kind = "as-loop"
 	case 1:
-		p.ASPath = append(p.ASPath, tbl.Seg{Set: true, ASNs: []uint32{localASN2, 65301}})
+		p.ASPath = append(p.ASPath, tbl.Seg{Set: true, ASNs: []uint32{[]uint32{localASN2, localASN3, localASN4}[rng.IntN(3)], 65301}})
 		kind = "as-loop"
 	case 2:
 		if s.IBGP {
@@ -86,7 +91,7 @@ func genPath(rng *rand.Rand, s tbl.SessionSpec, id uint32) (tbl.PathSpec, string
 	case 3:
 		if s.IBGP {
 			p.OrigID = 0x09090909
-			p.Cluster = &[]uint32{5, clusterID, 6}
+			p.Cluster = &[]uint32{5, []uint32{clusterID, clusterID2, clusterID3}[rng.IntN(3)], 6}
 			kind = "cluster-loop"
 		}
 	case 4:
@@ -141,6 +146,14 @@ func genHist(rng *rand.Rand, i int) hist {
 		case x < 80:
 			p := genPolicy(rng)
 			h.Ops = append(h.Ops, op{K: "policy", Pol: &p})
+		case x < 84:
+			// other sessions of the same VRF (with their own local ASN / cluster id) come and go
+			k := []string{"asn-add", "asn-remove", "cid-add", "cid-remove"}[rng.IntN(4)]
+			v := []uint32{localASN2, localASN3, localASN4}[rng.IntN(3)]
+			if k[0] == 'c' {
+				v = []uint32{clusterID2, clusterID3}[rng.IntN(2)]
+			}
+			h.Ops = append(h.Ops, op{K: k, Val: v})
 		case x < 87:
 			h.Ops = append(h.Ops, op{K: "unregister-locrib"})
 		case x < 94:
@@ -157,6 +170,7 @@ type stats struct {
 	handouts  int
 	policyOps int
 	lateRegs  int
+	vrfOps    int
 }
 
 func run(h hist, st *stats, viol func(string, map[string]string, string)) int {
@@ -175,6 +189,10 @@ func run(h hist, st *stats, viol func(string, map[string]string, string)) int {
 	v.AddContributingClusterID(clusterID)
 	localASNs := map[uint32]bool{localASN: true, localASN2: true}
 	localCIDs := map[uint32]bool{clusterID: true}
+	asnRef := map[uint32]int{localASN: 1, localASN2: 1}
+	cidRef := map[uint32]int{clusterID: 1}
+	// eligibility is judged against the ASNs / cluster ids that were local when the path was announced
+	reasonAtAnnounce := map[uint32]string{}
 	lr := locRIB.New("inet.0")
 	in := adjRIBIn.New(h.Initial.Chain(), v, h.S.Attrs())
 	in.Register(lr)
@@ -194,7 +212,8 @@ func run(h hist, st *stats, viol func(string, map[string]string, string)) int {
 		}
 		evals++
 		st.handouts++
-		if why := tbl.Ineligible(spec, h.S, localASNs, localCIDs); why != "" {
+		_ = spec
+		if why := reasonAtAnnounce[id]; why != "" {
 			viol("ineligible-handed-out", vf.F("reason", why, "where", where, "after", after, "session", sessKind), fmt.Sprintf("step %d (%s): path #%d (%s: %+v) is ineligible (%s) but was %s", step, after, id, sessKind, spec, why, where))
 		}
 	}
@@ -205,10 +224,35 @@ func run(h hist, st *stats, viol func(string, map[string]string, string)) int {
 			byID[o.Path.ID] = o.Path
 			if why := tbl.Ineligible(o.Path, h.S, localASNs, localCIDs); why != "" {
 				st.byReason[why]++
+				reasonAtAnnounce[o.Path.ID] = why
 			} else {
 				st.byReason["eligible"]++
 			}
 			in.AddPath(pfxs[o.Pfx], o.Path.Build())
+		case "asn-add":
+			v.AddContributingASN(o.Val)
+			asnRef[o.Val]++
+			localASNs[o.Val] = true
+			st.vrfOps++
+		case "asn-remove":
+			if asnRef[o.Val] > 0 { // a session only withdraws what it contributed
+				v.RemoveContributingASN(o.Val)
+				asnRef[o.Val]--
+				localASNs[o.Val] = asnRef[o.Val] > 0
+				st.vrfOps++
+			}
+		case "cid-add":
+			v.AddContributingClusterID(o.Val)
+			cidRef[o.Val]++
+			localCIDs[o.Val] = true
+			st.vrfOps++
+		case "cid-remove":
+			if cidRef[o.Val] > 0 {
+				v.RemoveContributingClusterID(o.Val)
+				cidRef[o.Val]--
+				localCIDs[o.Val] = cidRef[o.Val] > 0
+				st.vrfOps++
+			}
 		case "withdraw":
 			in.RemovePath(pfxs[o.Pfx], tbl.PathSpec{ID: 0, PathID: o.Path.PathID, NoIDComm: true}.Build())
 		case "policy":
@@ -257,8 +301,8 @@ func run(h hist, st *stats, viol func(string, map[string]string, string)) int {
 
 func main() {
 	vf.Main("C06", "exploration", func(r *vf.Run) {
-		r.Rule("PRNG histories of 40-60 operations on one Adj-RIB-In (iBGP/eBGP, add-path receive on/off, all 25 role pairs + roles off + peer without role, cycled) feeding a Loc-RIB and recording observers: announcements (about a third ineligible: AS loop via sequence or set incl. a second local ASN, own ORIGINATOR_ID, local cluster id inside CLUSTER_LIST, OTC present, empty eBGP AS_PATH), withdrawals, import policy replacement (accept-all / reject-all / reject-some / set LOCAL_PREF / prepend+MED), Loc-RIB unregister/register, late observer registration; every hand-out and every Loc-RIB path is judged by the reference predicate. distinct_nontrivial = histories with an ineligible announcement, a policy replacement and a late registration")
-		r.Assume("router id != 0", "the predicate judges the path as announced (before import policy)")
+		r.Rule("PRNG histories of 40-60 operations on one Adj-RIB-In (iBGP/eBGP, add-path receive on/off, all 25 role pairs + roles off + peer without role, cycled) feeding a Loc-RIB and recording observers: announcements (about a third ineligible: AS loop via sequence or set incl. a second local ASN, own ORIGINATOR_ID, local cluster id inside CLUSTER_LIST, OTC present, empty eBGP AS_PATH), withdrawals, import policy replacement (accept-all / reject-all / reject-some / set LOCAL_PREF / prepend+MED), Loc-RIB unregister/register, late observer registration, other sessions of the VRF adding/withdrawing their local ASN / cluster id (reference counted); every hand-out and every Loc-RIB path is judged by the reference predicate. distinct_nontrivial = histories with an ineligible announcement, a policy replacement and a late registration")
+		r.Assume("router id != 0", "the predicate judges the path as announced (before import policy), against the ASNs and cluster ids that were local at that moment")
 		mk := func(h hist) func(string, map[string]string, string) {
 			return func(clause string, f map[string]string, detail string) {
 				r.Violate(vf.Violation{Clause: clause, Features: f, Detail: detail, Case: h})
@@ -282,6 +326,7 @@ func main() {
 				agg["handouts_inspected"] += st.handouts
 				agg["policy_replacements"] += st.policyOps
 				agg["late_registrations"] += st.lateRegs
+				agg["other_sessions_asn_or_cluster_id_changes"] += st.vrfOps
 			}
 			close(done)
 		}()
